@@ -86,9 +86,16 @@ class TypeScriptMagicNumberAnalyzer(TypeScriptBaseAnalyzer):  # thailint: ignore
         """
         text = self.extract_node_text(node)
         try:
+            if text.endswith("n"):
+                text = text[:-1]  # BigInt literal (12n, 0xffn): same digits, same value
+            if text[:2].lower() in ("0x", "0o", "0b"):
+                return int(text, 0)  # Prefixed literal: "e" is a hex digit here, not an exponent
             # Try int first
             if "." not in text and "e" not in text.lower():
-                return int(text, 0)  # Handles hex, octal, binary
+                if len(text) > 1 and text[0] == "0" and text.isdigit():
+                    # Legacy (sloppy-mode) literal: 017 is octal, 089 is decimal
+                    return int(text, 8) if set(text) <= set("01234567") else int(text, 10)
+                return int(text, 0)  # Handles numeric separators
             # Otherwise float
             return float(text)
         except (ValueError, TypeError):
